@@ -463,6 +463,56 @@ def run_sync_real(seed: int, buffered: bool) -> dict[str, Any]:
 # ---------------------------------------------------------------------------------------------------------------
 
 
+async def _write_failure_then_receive(buffered: bool, use_client: bool) -> list[Any]:
+    """The peer sends three packets in one piece and goes away; the local side reads the first one, then writes into the dead connection
+    until a write fails (asyncio closes its transport at that point), then goes on receiving: the two packets that had arrived are still
+    delivered, and then the end of the stream is reported - again and again."""
+    import socket
+
+    from easynetwork.clients.async_tcp import AsyncTCPNetworkClient
+    from easynetwork.exceptions import ClientClosedError
+    from easynetwork.lowlevel.api_async.backend._asyncio.backend import AsyncIOBackend
+    from easynetwork.lowlevel.api_async.endpoints.stream import AsyncStreamEndpoint
+
+    backend = AsyncIOBackend()
+    a, b = harness.loopback_tcp_pair()
+    seen: list[Any] = []
+    obj: Any = None
+    try:
+        if use_client:
+            obj = AsyncTCPNetworkClient(a, _protocol(buffered), backend=backend)
+            await obj.wait_connected()
+        else:
+            obj = AsyncStreamEndpoint(await backend.wrap_stream_socket(a), _protocol(buffered), max_recv_size=1024)
+        b.sendall(b"packet-1\npacket-2\npacket-3\n")
+        await asyncio.sleep(0.05)
+        seen.append(await asyncio.wait_for(obj.recv_packet(), 5))
+        b.setsockopt(socket.SOL_SOCKET, socket.SO_LINGER, __import__("struct").pack("ii", 1, 0))
+        b.close()  # the peer is gone (reset)
+        await asyncio.sleep(0.05)
+        for _ in range(50):
+            try:
+                await asyncio.wait_for(obj.send_packet("x" * 1000), 5)
+            except (OSError, ClientClosedError):
+                break
+            await asyncio.sleep(0.01)
+        for _ in range(4):
+            try:
+                seen.append(await asyncio.wait_for(obj.recv_packet(), 5))
+            except ConnectionError as exc:
+                seen.append("<end-of-stream>" if isinstance(exc, (ConnectionAbortedError, ConnectionResetError)) else f"<{type(exc).__name__}>")
+            except Exception as exc:  # noqa: BLE001
+                seen.append(f"<{type(exc).__name__}>")
+    finally:
+        try:
+            if obj is not None:
+                await asyncio.wait_for(obj.aclose(), 5)
+        except BaseException:  # noqa: BLE001
+            pass
+        a.close()
+    return seen
+
+
 def _run_three(arg: tuple[int, bool]) -> list[dict[str, Any]]:
     seed, buffered = arg
     out = [run_async(seed, "endpoint", buffered), run_async(seed, "client", buffered), run_sync(seed, buffered)]
@@ -493,6 +543,26 @@ def run(chk: Check) -> None:
         for e in t["events"]:
             if e["ev"] in ("packet", "eof", "timeout", "stop"):
                 outcomes[e["ev"]] = outcomes.get(e["ev"], 0) + 1
+    for buffered in (False, True):
+        for use_client in (False, True):
+            seen = asyncio.run(_write_failure_then_receive(buffered, use_client))
+            chk.traces += 1
+            chk.distinct.add(("write_failure_then_receive", buffered, use_client))
+            # (a reset may legitimately cost the packets that were still in the kernel: what is required is that nothing the local side
+            # already holds is withheld, that the end is an end-of-stream / connection error, and that it is repeated)
+            pk = [x for x in seen if not str(x).startswith("<")]
+            tail = [x for x in seen if str(x).startswith("<")]
+            ok = pk == ["packet-1", "packet-2", "packet-3"][: len(pk)] and len(pk) >= 1 and tail and all(x == "<end-of-stream>" for x in tail) and seen[len(pk) :] == tail
+            if len(pk) < 3 and use_client is not None:
+                # all three packets arrived in one piece and were read from the socket together with the first one
+                ok = False
+            if not ok:
+                chk.violation(
+                    {"kind": "write_failure_then_receive", "what": "withheld_packets"},
+                    f"{'AsyncTCPNetworkClient' if use_client else 'AsyncStreamEndpoint over the asyncio adapter'} ({'buffered' if buffered else 'copying'} path): three packets arrive in one piece, "
+                    f"the first is read, the peer resets, a write fails, then receives: observed {seen}; expected packet-1, packet-2, packet-3, then the end of the stream, repeated",
+                    {"kind": "write_failure_then_receive", "buffered": buffered, "client": use_client},
+                )
     chk.extra["client_traces"] = {"traces": len(rec), "events": res.nevents, "rejected": len(res.rejected), "outcomes": outcomes}
     chk.sample({"meta": rec[1]["meta"], "events": [{k: v for k, v in e.items() if v not in (0, "", False)} for e in rec[1]["events"][:16]]}, cap=4)
     for idx, pos in sorted(res.rejected.items())[:40]:
